@@ -340,6 +340,10 @@ def schema_trees(tier, rng=None):
                                    ("dm", fixed("a.D8", 8, "decimal", prec=10, scale=0))]))
     add("three_levels", rec("a.L1", [("l2", rec("L2", [("l3", rec("a.L3", [("back", un(prim("null"), ref("a.L1")))])), ("again", ref("a.L3"))]))]) if False else
         rec("a.L1", [("l2", rec("a.x.L2", [("l3", rec("a.L3", [("back", un(prim("null"), ref("a.L1")))])), ("again", ref("a.L3"))]))]))
+    add("ns_null_ns_again", rec("a.L1", [("l2", rec("L2", [("l3", rec("a.L3", [("back", un(prim("null"), ref("a.L1")))])), ("e", enum("a.E3", ["S"])),
+                                                            ("f", fixed("F3", 2)), ("again", ref("a.L3"))])),
+                                         ("l3b", ref("a.L3")), ("e2", ref("a.E3"))]))
+    add("ns_b_null_b", rec("a.b.M1", [("m2", rec("M2", [("m3", enum("a.b.M3", ["Q"])), ("m4", rec("a.M4", [("x", ref("a.b.M3"))]))]))]))
     if rng is not None:
         from . import pyavro
         for i in range(12 if tier == "quick" else 120):
